@@ -573,14 +573,27 @@ def replay_main(prop, path):
     sys.exit(0)
 
 
+def private_build_dir(prop, tier):
+    """Every check run works in its own build directory (build/<property>-<tier>), so that registered commands can be run
+    side by side: two checks that share a unit would otherwise rewrite each other's generated files while a verifier reads
+    them.  (VERIF_BUILD overrides the location; the evaluation tools use it.)"""
+    global BUILD
+    if "VERIF_BUILD" not in os.environ:
+        BUILD = os.path.join(VERIF, "build", "%s-%s" % (prop, tier))
+        os.environ["VERIF_BUILD"] = BUILD
+    os.makedirs(BUILD, exist_ok=True)
+
+
 def main():
     args = sys.argv[1:]
     prop = args[0]
     if "--replay" in args:
+        private_build_dir(prop, "replay")
         return replay_main(prop, args[args.index("--replay") + 1])
     tier = os.environ.get("VERIF_TIER", "quick")
     if "--tier" in args:
         tier = args[args.index("--tier") + 1]
+    private_build_dir(prop, tier)
     seed = int(os.environ.get("VERIF_SEED", "0") or 0)
     t0 = time.time()
     units = [u for u in load_units()["units"] if prop in u.get("serves", [])]
@@ -765,7 +778,9 @@ def main():
         "wall_s": round(time.time() - t0, 2),
         "violations": len(violations),
     }
-    json.dump(ev, open(evid_path, "w"), indent=1)
+    with open(evid_path + ".tmp%d" % os.getpid(), "w") as fh:
+        json.dump(ev, fh, indent=1)
+    os.replace(evid_path + ".tmp%d" % os.getpid(), evid_path)
     print("%s: %d units, %d/%d verification conditions discharged, %d labelled clauses, solver %d ms, wall %.1fs" % (
         prop, len(units), vcs_ok, vcs_total, len(set(samples)), smt_ms, time.time() - t0))
     if violations:
